@@ -337,7 +337,7 @@ func splitArgs(s string) []string {
 }
 
 var reLoop = regexp.MustCompile(`^loop\s+(\d+)\s*:\s*(invariant|decreases|iteration ghost|iteration ensures|exhaustive)\s*(.*)$`)
-var reAtCall = regexp.MustCompile(`^at\s+(call\s+|recv\s+)?(\S+?)\s*:\s*(after\s+)?(assert|assume|ghost|allocbound|havoc)\s+(.*)$`)
+var reAtCall = regexp.MustCompile(`^at\s+(call\s+|recv\s+|send\s+)?(\S+?)\s*:\s*(after\s+)?(assert|assume|ghost|allocbound|havoc)\s+(.*)$`)
 var reGhost = regexp.MustCompile(`^ghost\s+(\w+)\s*:=\s*(.*)$`)
 var reSpecFn = regexp.MustCompile(`^spec\s+func\s+(\w+)\s*\(([^)]*)\)\s*(\w+)\s*(=\s*(.*))?$`)
 var reAxiom = regexp.MustCompile(`^axiom\s+(\w+)\s*(\[([^\]]*)\])?\s*:\s*(.*)$`)
@@ -617,8 +617,8 @@ func (db *SpecDB) loadText(data, path, pkgPath string, extern bool) error {
 						hh.Var = strings.TrimSpace(loc)
 						hh.Cl = Clause{Text: strings.TrimSpace(loc), Line: ln, File: path}
 						hk := m[2]
-						if strings.TrimSpace(m[1]) == "recv" {
-							hk = "recv:" + hk
+						if d := strings.TrimSpace(m[1]); d == "recv" || d == "send" {
+							hk = d + ":" + hk
 						}
 						cur.Hooks[hk] = append(cur.Hooks[hk], hh)
 					}
@@ -630,8 +630,8 @@ func (db *SpecDB) loadText(data, path, pkgPath string, extern bool) error {
 				}
 				h.Cl = cl
 				hk := m[2]
-				if strings.TrimSpace(m[1]) == "recv" {
-					hk = "recv:" + hk
+				if d := strings.TrimSpace(m[1]); d == "recv" || d == "send" {
+					hk = d + ":" + hk
 				}
 				cur.Hooks[hk] = append(cur.Hooks[hk], h)
 			case "ghost":
@@ -1638,6 +1638,22 @@ func (env *SpecEnv) evalCall(x *ast.CallExpr) Val {
 			}
 		}
 		specFail("unknown identifier: no event %q in this iteration", name)
+	case "iterfresh":
+		// iterfresh(x): the object x refers to was allocated during the current iteration of the loop this
+		// clause belongs to (after the last cut of that loop on this path)
+		v := arg(0)
+		tr := env.cur().trace
+		marker := fmt.Sprintf("loop*%d", env.loopOrd)
+		var front *Term
+		for i := range tr {
+			if tr[i].Name == marker && len(tr[i].Args) == 1 {
+				front = &tr[i].Args[0]
+			}
+		}
+		if front == nil {
+			specFail("iterfresh outside a loop clause")
+		}
+		return boolVal(Gt(v.L[0], *front))
 	case "evarg":
 		// evarg("event", k): k-th recorded argument of the first occurrence of the event on this path
 		lit, ok := x.Args[0].(*ast.BasicLit)
